@@ -13140,7 +13140,12 @@ func (l *Lowerer) extractWorkgroupSize(attrs []parser.Attribute) [3]uint32 {
 			if i >= 3 {
 				break
 			}
-			if val, ok := l.evalConstU32Expr(arg); ok {
+			// Any integer const-expression is allowed here (suffixed and hex
+			// literals, unary minus, %, named constants, builtin calls …): use
+			// the general constant evaluator and keep the simple one as fallback.
+			if _, v, err := l.evalConstantIntExpr(arg); err == nil && v > 0 && v <= math.MaxUint32 {
+				result[i] = uint32(v)
+			} else if val, ok := l.evalConstU32Expr(arg); ok {
 				result[i] = val
 			}
 		}
